@@ -41,6 +41,19 @@ pub struct BenignFaults {
     pub seed: u64,
 }
 
+/// A failing fault on the archive being written.
+#[derive(Clone, Debug, Serialize, Deserialize, PartialEq)]
+pub struct HardFault {
+    /// "offset" (first write reaching byte `at` is cut there, later writes fail),
+    /// "write_call" / "flush_call" (the at-th call fails), "read_offset" (input read error)
+    pub kind: String,
+    pub at: u64,
+    /// 28 ENOSPC, 27 EFBIG, 5 EIO
+    pub errno: i32,
+    /// path suffix the fault applies to
+    pub target: String,
+}
+
 #[derive(Clone, Debug, Serialize, Deserialize, PartialEq)]
 pub struct PipeSpec {
     pub gen: GenParams,
@@ -48,6 +61,8 @@ pub struct PipeSpec {
     pub faults: BenignFaults,
     pub presentations: Vec<Presentation>,
     pub sched: SchedSpec,
+    #[serde(default)]
+    pub hard: Option<HardFault>,
 }
 
 pub const ARCHIVE_PATH: &str = "/sim/out.agc";
@@ -124,7 +139,7 @@ pub fn generate_with(run_seed: u64, oversize_pct: u64) -> PipeSpec {
         BenignFaults::default()
     };
     let sched = SchedSpec::draw(&mut s.config, &mut s.schedule);
-    PipeSpec { gen, cfg, faults, presentations, sched }
+    PipeSpec { gen, cfg, faults, presentations, sched, hard: None }
 }
 
 /// Files of a spec as they are put on the sim disk: (path, bytes), in command-line order.
@@ -159,6 +174,22 @@ pub fn make_world(spec: &PipeSpec, files: &[(String, Vec<u8>)]) -> World {
         rng: spec.faults.seed,
         ..Default::default()
     };
+    if let Some(h) = &spec.hard {
+        world.faults.target = h.target.clone();
+        world.faults.write_errno = h.errno;
+        match h.kind.as_str() {
+            "offset" => world.faults.write_fail_at_offset = Some(h.at),
+            "write_call" => world.faults.write_fail_at_call = Some(h.at),
+            "write_call_once" => {
+                world.faults.write_fail_at_call = Some(h.at);
+                world.faults.write_fail_transient = true;
+            }
+            "flush_call" => world.faults.flush_fail_at_call = Some(h.at),
+            "read_offset" => world.faults.read_fail_at_offset = Some(h.at),
+            _ => {}
+        }
+    }
+    world.log_writes = true;
     for (p, b) in files {
         world.put_file(p, b.clone());
     }
